@@ -981,6 +981,23 @@ if TAINT:
 
         return mapped
 
+    # numpy.asarray / numpy.array do not dispatch on ndarray subclasses: called by the library on a traced array they
+    # would silently hand back a concrete copy (jax: TracerArrayConversionError)
+    def _conversion_guard(orig, name):
+        @functools.wraps(orig)
+        def g(a=None, *args, **kw):
+            if _jnp_depth[0] == 0 and _tainted(a):
+                import sys as _sys
+                if str(_sys._getframe(1).f_globals.get("__name__", "")).startswith("summer2"):
+                    raise TracerArrayConversionError(
+                        "numpy.%s was applied to a run-time dependent array by %s: under jax tracing this is a "
+                        "TracerArrayConversionError" % (name, _sys._getframe(1).f_globals.get("__name__")))
+            return orig(a, *args, **kw)
+        return g
+
+    for _cn in ("asarray", "array", "asanyarray", "ascontiguousarray"):
+        setattr(_np, _cn, _conversion_guard(getattr(_np, _cn), _cn))
+
     _plain_ravel = _ravel_pytree
 
     def _t_ravel_pytree(tree):
